@@ -114,4 +114,14 @@ PROPS = {
                      'the model comparison reads unexported fields of bufio.Writer / mercury.Writer by reflection at quiescence (monitors do not)'],
         trusted=['go1.26 testing/synctest fake clock'],
     ),
+    'C03': dict(
+        harness='streamdiff', args=['-prop', 'C03'], shards=dict(quick=4, thorough=16),
+        rule='packet sequences (1..40 packets, all 14 types, sizes around the 4096-byte bufio boundary and around the read limit) x fragmentations: every 2- and 3-way split of streams <= 64 bytes, '
+             'random chunk sizes 1..k, byte-at-a-time, half reads, data-with-EOF readers, non-EOF terminal errors; every truncation of short streams and random truncations of long ones; read limits '
+             'around packet lengths and a huge declared length; garbage / continuation-byte / invalid-type / mutated streams; encoder scripts over async/sync writes, Flush, delay 0 / >0, timer, failing carrier '
+             'against a recording writer; real ws:// and tcp:// loopback pairs with packets split across / packed into WebSocket messages and TCP segments; '
+             'monitors: round trip, fragmentation independence, truncated-never-a-packet, limit, wire = concatenation of Encode outputs, flushed after sync; distinct = distinct (stream, chunking) / scripts',
+        assumptions=['timer firings are exercised with a real 2 ms delay and polling for the recorded bytes (result-deterministic); all other scripts use a one-hour delay so no timer fires',
+                     'loopback cases use real localhost sockets with 10 s deadlines'],
+    ),
 }
